@@ -351,6 +351,10 @@ def items(tier):
             out.append((s, "nope", False))
             if s["varkw"]:
                 out.append((s, "z", False))
+                # a condition asking for the name of the variadic parameter itself: the call never provides such a name
+                out.append((s, "kwargs", False))
+            if s["var"]:
+                out.append((s, "args", False))
     return out
 
 
